@@ -143,6 +143,10 @@ POLICIES = {
     # s%{e}+|{}" with s%{e}+ parsing as "e {s ~ e}", whose cut is inside the braces, so that the second
     # option {} still applies (result [] with nothing consumed).  Both are admissible.
     'join_cut': ('fail', 'empty'),
+    # a cut written directly inside ( ... ) or (?: ... ): syntax.rst says "scoped to the nearest enclosing brackets
+    # (group, optional, closure)", the C05 statement lists option / optional / closure or join iteration / rule body
+    # as the scopes (a group has no alternatives of its own).  Both readings are admissible.
+    'group_cut': ('through', 'scope'),
 }
 DEFAULT_POLICY = {k: v[0] for k, v in POLICIES.items()}
 
@@ -185,9 +189,9 @@ def shape(items):
     return list(items)
 
 
-def _strip(items):
+def _strip(items, unspec=False):
     i = 0
-    while i < len(items) and (items[i] is None or items[i] is UNSPEC):
+    while i < len(items) and (items[i] is None or (unspec and items[i] is UNSPEC)):
         i += 1
     return items[i:] if i else items
 
@@ -333,7 +337,7 @@ _UNSET = object()
 class _Evaluator:
     def __init__(self, desc, text, *, whitespace=_UNSET, nameguard=None, namechars='', ignorecase=False,
                  keywords=(), comments=None, eol_comments=None, left_recursion=True, actions=None,
-                 policy=None, group_cut_scope=True, deviations=()):
+                 policy=None, group_cut_scope=False, deviations=()):
         self.rules = {}
         for r in desc:
             name, body = r[0], r[1]
@@ -523,14 +527,18 @@ class _Evaluator:
 
     def e_group(self, e, pos):
         r = self.ev(e[1], pos)
+        scope = self.group_cut_scope or self.policy['group_cut'] == 'scope'
         if type(r) is not tuple:
-            # "The effect of ~ is scoped to the nearest enclosing brackets (group, optional, closure)"
-            return _NOCUT if self.group_cut_scope else r
+            if r != _NOCUT:
+                self.used_policy.add('group_cut')
+            return _NOCUT if scope else r
         p, items, binds, cut = r
+        if cut != _NOCUT:
+            self.used_policy.add('group_cut')
         d = self._defs(e[1], 'group')
         if d:
             binds = [d, *binds]
-        return p, items, binds, (_NOCUT if self.group_cut_scope else cut)
+        return p, items, binds, (_NOCUT if scope else cut)
 
     def e_skipgroup(self, e, pos):
         r = self.e_group(e, pos)
@@ -615,7 +623,7 @@ class _Evaluator:
                     return None
                 return pos
             if self.dev_none and not first:
-                vals = _strip(vals)
+                vals = _strip(vals, True)
             values += vals
             binds += bs
             pos = p
